@@ -202,6 +202,14 @@ Section Proofs.
       + rewrite key_of_eq, (firstn_app_exact key _ 32 Lk). exact Hk.
   Qed.
 
+  Lemma from_txt_strings_constructed key sig ts build p :
+    is_point key = true -> length key = 32%nat -> length sig = 64%nat ->
+    from_txt_strings key sig ts build = Ok p -> constructed p.
+  Proof.
+    intros Hk Lk Ls. unfold from_txt_strings. destruct build as [pl|]; [|discriminate].
+    destruct (PKARR_MAX_DNS_PACKET_SIZE <? len pl); [discriminate|]. intros [= <-]. now apply c_signed.
+  Qed.
+
   Lemma accessors_total p :
     constructed p ->
     public_key p = Ok (key_of p) /\ obs_total (observe p) = true.
@@ -266,7 +274,7 @@ Proof.
   unfold from_parts_unchecked, from_parts_unchecked_with.
   change (from_bytes_unchecked_with (c_is_point i) (c_dns_ok i) FIXED) with (from_bytes_unchecked (c_is_point i) (c_dns_ok i)).
   rewrite inspect_unchecked, andb_true_l.
-  apply andb_true_intro. split.
+  rewrite <- andb_assoc. apply andb_true_intro. split; [|apply andb_true_intro; split].
   - destruct ((32 <=? len (all_bytes i)) && c_is_point i (key_of (all_bytes i))); [|reflexivity].
     unfold from_relay_payload. rewrite key_of_eq, firstn_skipn. rewrite <- key_of_eq. apply accepted_from_bytes.
   - destruct (32 <=? len (all_bytes i)); [|reflexivity].
@@ -275,6 +283,17 @@ Proof.
     assert (K : key_of (in_key2 i ++ skipn 32 (all_bytes i)) = in_key2 i).
     { apply relay_parts. unfold len in L. lia. }
     rewrite <- K at 1. apply accepted_from_bytes.
+  - destruct (txt_wf i) eqn:W; cbn [negb orb]; [|now destruct (in_txt i)].
+    unfold txt_wf in W. destruct (in_txt i) as [t|]; [|discriminate].
+    apply andb_true_iff in W. destruct W as [W Ls]. apply andb_true_iff in W. destruct W as [Hk Lk].
+    destruct (model_txt i t) as [p|e|] eqn:E; cbn [map_res inspect_ok]; try reflexivity.
+    + unfold model_txt in E. apply (from_txt_strings_constructed (c_is_point i) (c_verify i) (c_dns_ok i)) in E.
+      * apply accessors_total in E. apply E.
+      * exact Hk.
+      * unfold len in Lk. lia.
+      * unfold len in Ls. lia.
+    + unfold model_txt, from_txt_strings in E. destruct (t_build t) as [pl|]; [|discriminate].
+      destruct (PKARR_MAX_DNS_PACKET_SIZE <? len pl); discriminate.
 Qed.
 
 (* ---- the monitor in readable form ---- *)
@@ -314,15 +333,19 @@ Lemma monitor_spec i o :
    inspect_prop (r_unchecked o) /\ inspect_prop (r_parts o) /\
    (forall r, r_relay o = Some r -> accepted_prop i (key_of (all_bytes i)) (all_bytes i) r) /\
    (forall r, r_relay2 o = Some r ->
-      accepted_prop i (in_key2 i) (in_key2 i ++ skipn 32 (all_bytes i)) r)).
+      accepted_prop i (in_key2 i) (in_key2 i ++ skipn 32 (all_bytes i)) r) /\
+   (forall r, r_txt o = Some r -> txt_wf i = true -> inspect_prop r)).
 Proof.
   intros L. unfold monitor. cbv zeta. rewrite !andb_true_iff, accepted_ok_spec, !inspect_ok_spec.
   replace (len (in_key2 i) =? 32) with true by lia. cbn [negb orb].
   split.
-  - intros [[[[H1 H2] H3] H4] H5]. repeat split; auto.
+  - intros [[[[[H1 H2] H3] H4] H5] H6]. repeat split; auto.
     + intros r E. rewrite E in H4. now apply accepted_ok_spec.
     + intros r E. rewrite E in H5. now apply accepted_ok_spec.
-  - intros (H1 & H2 & H3 & H4 & H5). repeat split; auto.
+    + intros r E W. rewrite E, W in H6. cbn [negb orb] in H6. now apply inspect_ok_spec.
+  - intros (H1 & H2 & H3 & H4 & H5 & H6). repeat split; auto.
     + destruct (r_relay o) as [r|]; [|reflexivity]. apply accepted_ok_spec. now apply H4.
     + destruct (r_relay2 o) as [r|]; [|reflexivity]. apply accepted_ok_spec. now apply H5.
+    + destruct (r_txt o) as [r|]; [|reflexivity]. destruct (txt_wf i) eqn:W; cbn [negb orb]; [|reflexivity].
+      apply inspect_ok_spec. now apply H6.
 Qed.
